@@ -1432,6 +1432,9 @@ KF_JSONIFY = "C02:get_parameters_strategy:jsonify-after-the-final-filter:value-c
 KF_CUSTOM_MEDIA = "C02:openapi_cases:registered-media-type-strategy-labelled-negative"
 CUSTOM_MEDIA = "application/x-verif"
 CUSTOM_SCHEMA = {"type": "string", "format": "binary"}
+CUSTOM_MEDIA_VARIANTS = [CUSTOM_MEDIA + "; charset=utf-8", CUSTOM_MEDIA.upper()]
+CUSTOM_SENTINEL = b"DEMO"
+KF_CUSTOM_VARIANT = "C02:openapi_cases:registered-strategy-used-for-another-media-type-and-labelled-negative"
 BODY_VARIANT = ["asFound"]
 EXPLICIT_KW = {"path": "path_parameters", "header": "headers", "cookie": "cookies", "query": "query"}
 PARAM_LOCS = ("path", "header", "cookie", "query")
@@ -1480,7 +1483,8 @@ class Tap:
         def gbs(parameter, strategy_factory, operation, generation_config):
             n = len(tap.factory_calls)
             strat = real_gbs(parameter, strategy_factory, operation, generation_config)
-            if parameter.media_type in H.MEDIA_TYPES and strat is H.MEDIA_TYPES[parameter.media_type]:
+            if any(strat is r for r in H.MEDIA_TYPES.values()):
+                # a registered strategy object, under whatever key it was found
                 obs = "custom"
             else:
                 if len(tap.factory_calls) > n:
@@ -1615,6 +1619,10 @@ def make_x_operation(shape, index):
         for i, neg in enumerate(shape["body"]):
             if neg == "custom":
                 content[CUSTOM_MEDIA] = {"schema": copy.deepcopy(CUSTOM_SCHEMA)}
+            elif neg == "customp":
+                # the registered media type written with a parameter / in another case: NOT the registered key, so the body
+                # is generated from its (negatable) schema like any other
+                content[CUSTOM_MEDIA_VARIANTS[i % len(CUSTOM_MEDIA_VARIANTS)]] = {"schema": {"type": "integer"}}
             else:
                 content[MEDIA[i]] = {"schema": ({"type": "integer"} if neg else {})}
         d["requestBody"] = {"required": bool(shape["body_required"]), "content": content}
@@ -1796,6 +1804,52 @@ def detect_body_variant(chk):
     chk.variants["registered-media-type-as-negation-candidate"] = BODY_VARIANT[0]
 
 
+def custom_media_variants(chk):
+    """A strategy registered for media type M serves bodies declared as exactly M.  A body declared with a parameter
+    (`M; charset=utf-8`) or in another spelling is generated from its schema like any other: in negative mode its value must
+    violate that schema and must not be the registered strategy's (conforming, user-supplied) data.  Real draws, real
+    Hypothesis, designed operations."""
+    from hypothesis import HealthCheck, Phase, given, settings
+    from hypothesis import seed as hseed
+    register_custom_media()
+    for variant in CUSTOM_MEDIA_VARIANTS:
+        for extra in ([],):      # (with the exact media type declared next to it a case could not be attributed)
+            content = {variant: {"schema": {"type": "integer"}}}
+            for mt in extra:
+                content[mt] = {"schema": copy.deepcopy(CUSTOM_SCHEMA)}
+            raw = {"openapi": "3.0.2", "info": {"title": "t", "version": "1"},
+                   "paths": {"/m": {"post": {"requestBody": {"required": True, "content": content},
+                                             "responses": {"200": {"description": "OK"}}}}}}
+            op = schemathesis.openapi.from_dict(raw)["/m"]["POST"]
+            for mode in (GenerationMode.NEGATIVE, GenerationMode.POSITIVE):
+                got = []
+
+                @hseed(chk.seed + 17)
+                @settings(max_examples=12, database=None, deadline=None, phases=[Phase.generate], suppress_health_check=list(HealthCheck))
+                @given(op.as_strategy(generation_mode=mode))
+                def t(case):
+                    got.append(case)
+                try:
+                    t()
+                except Exception as e:  # noqa: BLE001
+                    chk.feature(f"custom-media-variant:{mode.value}:{type(e).__name__}")
+                for case in got:
+                    comp = {k.value: v.mode.value for k, v in case.meta.components.items()}.get("body")
+                    key = {"media_type": variant, "also_declares": extra, "mode": mode.value}
+                    chk.case("custom-media-variant", key=[key, repr(case.body)], nontrivial=True,
+                             sample={**key, "body": repr(case.body), "label": comp})
+                    chk.feature(f"custom-media-variant:{mode.value}:{'sentinel' if case.body == CUSTOM_SENTINEL else 'from-schema'}")
+                    if case.body == CUSTOM_SENTINEL:
+                        chk.violation(KF_CUSTOM_VARIANT if comp == "negative" else
+                                      "C02:_get_body_strategy:registered-strategy-used-for-another-media-type",
+                                      f"the body declared as {variant!r} carries the data of the strategy registered for "
+                                      f"{CUSTOM_MEDIA!r} and is labelled {comp}", {"document": raw, **key, "body": repr(case.body)})
+                    elif mode == GenerationMode.NEGATIVE and comp == "negative" and isinstance(case.body, int) \
+                            and not isinstance(case.body, bool):
+                        chk.violation("C02:negative-label:body:value-conforms", f"body {case.body!r} labelled negative conforms to "
+                                      "{type: integer}", {"document": raw, **key, "body": repr(case.body)})
+
+
 def labels_explicit(chk):
     """The real `openapi_cases` with explicit arguments under scripted draws (every choice sequence) against the Lean
     `openapiCasesX`: outcome, labels, the value of every location, the generator of every container and the strategy
@@ -1805,9 +1859,9 @@ def labels_explicit(chk):
     shapes = x_shapes(rng, chk.budget(60, 1500))
     if not chk.thorough:
         systematic = [s for s in shapes[:-60]]
-        with_custom = [s for s in systematic if "custom" in s[0]["body"]]
-        rest = [s for s in systematic if "custom" not in s[0]["body"]]
-        shapes = rng.sample(rest, min(len(rest), 160)) + rng.sample(with_custom, 8) + shapes[-60:]
+        with_custom = [s for s in systematic if "custom" in s[0]["body"] or "customp" in s[0]["body"]]
+        rest = [s for s in systematic if s not in with_custom]
+        shapes = rng.sample(rest, min(len(rest), 160)) + rng.sample(with_custom, min(len(with_custom), 14)) + shapes[-60:]
     # one operation object per distinct parameter shape: explicit choices share it (and its strategy cache)
     ops, defs = {}, {}
     keys = []
@@ -2259,6 +2313,7 @@ def run(chk):
     ]
     labels_scripted(chk, variant)
     labels_explicit(chk)
+    custom_media_variants(chk)
     mutations_corr(chk)
     labels_real(chk, variant)
     explicit_real(chk)
